@@ -81,7 +81,7 @@ def run(tier):
     seed = core.seed()
     rnd = random.Random(seed)
     texts = build_corpus(tier, seed)
-    nproc = 4 if tier == "quick" else 12
+    nproc = 4 if tier == "quick" else 8
     cases = [{"id": 0, "name": nm, "usage": u, "shell": sh, "opt": {"dest": "file", "destname": "_cmd" if sh == "zsh" else "out.script", "dfa": True, "regex": True}}
              for nm, u in texts for sh in gen.SHELLS]
     # which grammars compile at all (in-process, also an observation of each key)
@@ -108,7 +108,7 @@ def run(tier):
         picked = good
     nreal = 0
     for c in picked:
-        for p in range(nproc):
+        for p in range(nproc if c["name"].startswith(("example", "large")) else 3):
             env = dict(ENVS[p % len(ENVS)])
             env["VERIF_PAD"] = "x" * rnd.randint(1, 60000)
             o = cli.run_real(dict(c, env=env))
